@@ -24,7 +24,8 @@ RULE = ('a multiset of 1-6 well-formed entries (home + volume trash dirs) is mix
         'payload without info, CRLF); each of trash-list, trash-restore (every sort), trash-rm PATTERN, trash-empty [DAYS] is run on the trash '
         'with and without the malformed entries under a per-case directory order; distinct = (reader + args class, sorted malformed kinds)')
 ASSUMPTIONS = ["a malformed entry that still carries a parseable Path (missing/bad date, no payload, CRLF) is itself a listable entry; only the well-formed entries' outcomes are compared"]
-PROBES = ['list', 'restore', 'rm', 'empty', 'empty-days', 'wellformed-entries', 'malformed-entries', 'diagnostic-printed', 'traceback-harmless']
+PROBES = ['list', 'restore', 'rm', 'empty', 'empty-days', 'wellformed-entries', 'malformed-entries', 'diagnostic-printed', 'traceback-harmless',
+          'small-descriptor-limit']
 TECHNIQUE = 'deterministic simulation, differential: trash with vs without malformed neighbours, all four readers, seeded directory order'
 LEVEL_TEXT = 'seeded exploration of mixtures x readers x arguments x directory orders; isolation judged by comparing the well-formed entries\' outcomes'
 LEVEL_NOTE = 'trusted: world rebuild determinism, model/bag.py'
@@ -49,6 +50,16 @@ def gen(rng):
         # (an older generation of the same file whose info lost its date)
         pv = TG.pct(rng.choice(made)[2]) if (made and k in ('nodate', 'baddate', 'offsetdate') and rng.random() < 0.5) else None
         TG.add_malformed(rng, extra, tdir, k, str(i), path_value=pv)
+    nofile = None
+    if rng.random() < 0.04:
+        # a small descriptor limit (ulimit -n) and more odd neighbours of one kind than that: a reader that leaks one
+        # descriptor per odd neighbour runs out of them before it reaches the well-formed entries listed later
+        nofile = rng.choice([16, 24, 32])
+        k_ = rng.choice(['infodir_named_trashinfo', 'infodir_named_trashinfo', 'dir_in_info', 'empty', 'nonutf8', 'binary', 'info_dangling_link'])
+        kinds.append(k_ + '-x%d' % (nofile + 6))
+        tdir = rng.choice(used_dirs)
+        for j in range(nofile + 6):
+            TG.add_malformed(rng, extra, tdir, k_, 'many%d' % j)
     reader = rng.choice(['list', 'restore', 'restore', 'rm', 'empty'])
     stdin = ''
     if reader == 'list':
@@ -63,7 +74,7 @@ def gen(rng):
     return {
         'world': {'mounts': L['mounts'], 'steps': steps},
         'extra_steps': extra,
-        'procs': [{'argv': argv, 'env': env, 'cwd': '/', 'uid': uid, 'stdin': stdin}],
+        'procs': [dict({'argv': argv, 'env': env, 'cwd': '/', 'uid': uid, 'stdin': stdin}, **({'nofile': nofile} if nofile else {}))],
         'dirsalt': rng.randrange(1 << 30),
         'clock': {'start': '2024-06-01T12:00:00.000000'},
         'note': {'malformed': sorted(kinds)},
@@ -130,6 +141,8 @@ def check(sim, case, st):
         st.probes['empty-days'] += 1
     st.probes['wellformed-entries'] += len(well)
     st.probes['malformed-entries'] += len(kinds)
+    if spec.get('nofile'):
+        st.probes['small-descriptor-limit'] += 1
     st.distinct.add((argcls, kinds))
 
     def bad(clause, msg):
